@@ -8,6 +8,7 @@ import (
 
 	"golang.org/x/tools/go/ssa"
 
+	"verif/internal/asm"
 	"verif/internal/core"
 )
 
@@ -197,6 +198,103 @@ func foreignWordSource(w ssa.Value, seen map[ssa.Value]bool) *ssa.Call {
 	return nil
 }
 
+// wordLoadOffset: the low bound of the haystack slice a detector's word was loaded from (h[low:] handed to
+// encoding/binary's Uint64); ok=false if the word has no single such load.
+func wordLoadOffset(w ssa.Value, seen map[ssa.Value]bool) (low ssa.Value, zero bool, ok bool) {
+	if w == nil || seen[w] {
+		return nil, false, false
+	}
+	seen[w] = true
+	switch x := w.(type) {
+	case *ssa.BinOp:
+		if l, z, k := wordLoadOffset(x.X, seen); k {
+			return l, z, true
+		}
+		return wordLoadOffset(x.Y, seen)
+	case *ssa.UnOp:
+		return wordLoadOffset(x.X, seen)
+	case *ssa.Convert:
+		return wordLoadOffset(x.X, seen)
+	case *ssa.Call:
+		cal := x.Call.StaticCallee()
+		if cal == nil || cal.Pkg == nil || cal.Pkg.Pkg.Path() != "encoding/binary" {
+			return nil, false, false
+		}
+		for _, a := range x.Call.Args {
+			if !isByteSlice(a.Type()) {
+				continue
+			}
+			if sl, isSl := a.(*ssa.Slice); isSl {
+				if sl.Low == nil {
+					return nil, true, true
+				}
+				return sl.Low, false, true
+			}
+			return nil, true, true
+		}
+	}
+	return nil, false, false
+}
+
+// swarOffsetMismatch: for an exact mask, every returned position that depends on the trailing-zero count is
+// (offset the word was loaded from) + count/8. Returns a description of the first return for which the linear
+// form of the result differs from that.
+func swarOffsetMismatch(fn *ssa.Function, tz *ssa.Call, words []ssa.Value) string {
+	nonneg := map[string]bool{}
+	var base asm.Lin
+	have := false
+	for _, w := range words {
+		low, zero, ok := wordLoadOffset(w, map[ssa.Value]bool{})
+		if !ok {
+			return ""
+		}
+		l := asm.Const(0)
+		if !zero {
+			l = ssaLin(low, nonneg, 0)
+		}
+		if have && l.Plus(base, -1).String() != asm.Const(0).String() {
+			return "" // words of different loads: not this clause's business
+		}
+		base, have = l, true
+	}
+	if !have {
+		return ""
+	}
+	// the count/8 value
+	var quo ssa.Value
+	if tz.Referrers() != nil {
+		for _, r := range *tz.Referrers() {
+			if bo, ok := r.(*ssa.BinOp); ok && (bo.Op == token.QUO || bo.Op == token.SHR) && bo.X == ssa.Value(tz) {
+				quo = bo
+			}
+		}
+	}
+	if quo == nil {
+		return ""
+	}
+	for _, b := range fn.Blocks {
+		for _, in := range b.Instrs {
+			ret, ok := in.(*ssa.Return)
+			if !ok {
+				continue
+			}
+			for _, r := range ret.Results {
+				if !isIntType(r.Type()) || !swarDependsOn(r, tz, map[ssa.Value]bool{}) {
+					continue
+				}
+				if _, isPhi := r.(*ssa.Phi); isPhi {
+					continue
+				}
+				diff := ssaLin(r, nonneg, 0).Plus(base, -1).Plus(ssaLin(quo, nonneg, 0), -1)
+				if diff.String() != asm.Const(0).String() {
+					return fmt.Sprintf("the word was loaded at offset %s, but the position returned for a marker in it is off by %s: a hit in this word is reported at another word's offset and the real first occurrence is skipped", base.String(), diff.String())
+				}
+			}
+		}
+	}
+	return ""
+}
+
 func flattenAnd(b *ssa.BinOp) []ssa.Value {
 	var out []ssa.Value
 	var walk func(v ssa.Value)
@@ -243,7 +341,7 @@ func swarDependsOn(v, src ssa.Value, seen map[ssa.Value]bool) bool {
 func init() {
 	core.Register(&core.Rule{
 		Name: "R-SWAR",
-		Doc: "Word-at-a-time (SWAR) scans report only genuine positions and skip none. The zero-byte detector (w-0x01..01) & ^w & 0x80..80 can set spurious marker bits, but only above a genuine one, so the lowest marker of one detector - and of an OR of detectors - is exact. The lowest marker of an AND of detectors (byte pair search: byte1 at i and byte2 at i+offset) may be an artefact of one component, and so may any marker that remains after the lowest was cleared. For every bits.TrailingZeros64 applied to a marker mask in package simd: (a) if the mask is exact-lowest the position may be returned as is; (b) if it is inexact, every return that depends on the position is dominated by one byte comparison per ANDed detector between the haystack at that position and a needle; and (c) the mask is iterated - it is a loop-carried value reduced by clearing the examined marker - so a failed verification moves on to the next marker of the same word instead of skipping the rest of it. Necessary for C18 (the generic fallbacks equal their scalar definitions) and C16 (the rare-byte pair search behind Memmem never skips an occurrence). (d) The word a detector examines is a plain 8-byte load of the haystack (encoding/binary Uint64) combined with constants and needle masks; a word assembled by a helper (zero-padded tail) contains bytes that are not haystack bytes. A position taken from a word of any other construction is undecided (a per-byte addition on a packed word carries between bytes). Four seeding agents removed or weakened the verification, one introduced an unmasked range test.",
+		Doc: "Word-at-a-time (SWAR) scans report only genuine positions and skip none. The zero-byte detector (w-0x01..01) & ^w & 0x80..80 can set spurious marker bits, but only above a genuine one, so the lowest marker of one detector - and of an OR of detectors - is exact. The lowest marker of an AND of detectors (byte pair search: byte1 at i and byte2 at i+offset) may be an artefact of one component, and so may any marker that remains after the lowest was cleared. For every bits.TrailingZeros64 applied to a marker mask in package simd: (a) if the mask is exact-lowest the position may be returned as is; (b) if it is inexact, every return that depends on the position is dominated by one byte comparison per ANDed detector between the haystack at that position and a needle; and (c) the mask is iterated - it is a loop-carried value reduced by clearing the examined marker - so a failed verification moves on to the next marker of the same word instead of skipping the rest of it. Necessary for C18 (the generic fallbacks equal their scalar definitions) and C16 (the rare-byte pair search behind Memmem never skips an occurrence). (d) The word a detector examines is a plain 8-byte load of the haystack (encoding/binary Uint64) combined with constants and needle masks; a word assembled by a helper (zero-padded tail) contains bytes that are not haystack bytes. (e) For an exact mask the returned position equals (offset the word was loaded from) + count/8 in the linear domain: in an unrolled loop a hit in the word loaded at idx+16 must not be reported at idx+24. A position taken from a word of any other construction is undecided (a per-byte addition on a packed word carries between bytes). Four seeding agents removed or weakened the verification, one introduced an unmasked range test.",
 		Min: 4, NeedSSA: true,
 		Run: func(p *core.Prog) *core.RuleResult {
 			res := &core.RuleResult{}
@@ -310,6 +408,11 @@ func init() {
 						if kind == 1 {
 							o.Status = core.Discharged
 							o.Detail = "the mask is one zero-byte detector or an OR of detectors: its lowest marker is exact"
+							// (e) the position is reported relative to where the examined word was loaded from
+							if why := swarOffsetMismatch(fn, call, words); why != "" {
+								o.Status = core.Violated
+								o.Detail = why
+							}
 							res.Obligations = append(res.Obligations, o)
 							continue
 						}
